@@ -143,7 +143,7 @@ func (l c19) Exec(env *core.Env) *core.Result {
 	var disarm context.CancelFunc
 	var lister *rt.Task
 	sim := core.NewSim(env, func(t *rt.Task, op rt.Op, fault string) {
-		if armed < 0 || op.Kind == "yield" || t != lister {
+		if armed < 0 || op.Kind == "yield" || t.Root() != lister { // (goroutines the listing starts itself count)
 			return
 		}
 		if armed == 0 && disarm != nil {
